@@ -113,7 +113,7 @@ func newPermWorld() (*permWorld, error) {
 	if err != nil {
 		return nil, err
 	}
-	pw := &permWorld{runner: runner{n: n}, gkeys: map[string]*keys.PrivateKey{}, byName: map[string]*callee{}}
+	pw := &permWorld{runner: runner{n: n, tag: "perm"}, gkeys: map[string]*keys.PrivateKey{}, byName: map[string]*callee{}}
 	for i, g := range []string{"G1", "G2", "G3"} {
 		pw.gkeys[g] = chainx.Acc(11 + i).PrivateKey()
 	}
@@ -248,6 +248,8 @@ type permStats struct {
 	block      int64
 	token      int64
 	entry      int64
+	names      int64 // real calls of the names family
+	namesPure  int64 // pure evaluations of the names family
 	rootCause  int64 // mismatches explained by the group kind skipping the method list
 	witness    map[string]*permCase
 	rootBySub  map[string]int
